@@ -184,8 +184,9 @@ func (r *c16Rec) hook(ev string, o1, o2 any, a, b int) {
 }
 
 type c16Cfg struct {
+	entry                string // "serve": Serve(listener) | "sc": ServeConn only (Serve is never called)
 	conc, nconns, maxreq int
-	timeout             time.Duration
+	timeout              time.Duration
 }
 
 type c16Req struct {
@@ -312,13 +313,16 @@ func c16RunOne(t *testing.T, rng *rand.Rand, tw *vfTraceWriter, trNo int, cfg c1
 	}
 	// the constants of the trace spec come from the first init line of a file: use the per-file maxima
 	tw.Emit(vfRec{"ev": "init", "nc": 2, "nctx": 2 + 2*cfg.maxreq + 2, "maxreq": cfg.maxreq, "maxwr": 3, "nconns": cfg.nconns,
-		"conc": cfg.conc, "tr": trNo, "timeout_us": int(cfg.timeout / time.Microsecond)})
+		"conc": cfg.conc, "tr": trNo, "entry": cfg.entry, "timeout_us": int(cfg.timeout / time.Microsecond)})
 	VerifHook = rec.hook
 	defer func() { VerifHook = nil }()
 
 	ln := fasthttputil.NewInmemoryListener()
 	serveDone := make(chan error, 1)
-	go func() { serveDone <- s.Serve(ln) }()
+	if cfg.entry == "serve" {
+		go func() { serveDone <- s.Serve(ln) }()
+	}
+	var scWG sync.WaitGroup
 
 	got := make([][]c16Content, cfg.nconns+1)
 	errs := make([]string, cfg.nconns+1)
@@ -327,10 +331,21 @@ func c16RunOne(t *testing.T, rng *rand.Rand, tw *vfTraceWriter, trNo int, cfg c1
 		cwg.Add(1)
 		go func(c int) {
 			defer cwg.Done()
-			cc, err := ln.Dial()
-			if err != nil {
-				errs[c] = "dial: " + err.Error()
-				return
+			var cc net.Conn
+			if cfg.entry == "serve" {
+				var err error
+				if cc, err = ln.Dial(); err != nil {
+					errs[c] = "dial: " + err.Error()
+					return
+				}
+			} else {
+				pcs := fasthttputil.NewPipeConns()
+				cc = pcs.Conn2()
+				scWG.Add(1)
+				go func() {
+					defer scWG.Done()
+					s.ServeConn(pcs.Conn1())
+				}()
 			}
 			defer cc.Close()
 			br := bufio.NewReader(cc)
@@ -382,6 +397,7 @@ func c16RunOne(t *testing.T, rng *rand.Rand, tw *vfTraceWriter, trNo int, cfg c1
 	}
 	cwg.Wait()
 	// every handler goroutine finished and released its token, every connection wound up
+	windup := ""
 	dl := time.Now().Add(8 * time.Second)
 	for {
 		rec.mu.Lock()
@@ -391,23 +407,34 @@ func c16RunOne(t *testing.T, rng *rand.Rand, tw *vfTraceWriter, trNo int, cfg c1
 			break
 		}
 		if time.Now().After(dl) {
-			vfInfra(fmt.Sprintf("c16: execution did not wind up: tokens=%d running=%d ended=%d/%d errs=%v", len(s.concurrencyCh), running.Load(), ended, cfg.nconns, errs))
+			if running.Load() == 0 && ended == cfg.nconns {
+				// every wrapped handler returned long ago, yet its token was never given back
+				windup = fmt.Sprintf("%d token(s) still held 8s after every wrapped handler had returned and every connection had ended", len(s.concurrencyCh))
+			} else {
+				vfInfra(fmt.Sprintf("c16: execution did not wind up: tokens=%d running=%d ended=%d/%d errs=%v", len(s.concurrencyCh), running.Load(), ended, cfg.nconns, errs))
+			}
 			break
 		}
 		time.Sleep(200 * time.Microsecond)
 	}
 	selfWG.Wait()
+	scWG.Wait()
 	ln.Close()
-	select {
-	case <-serveDone:
-	case <-time.After(5 * time.Second):
-		vfInfra("c16: Serve did not return")
+	if cfg.entry == "serve" {
+		select {
+		case <-serveDone:
+		case <-time.After(5 * time.Second):
+			vfInfra("c16: Serve did not return")
+		}
 	}
 	VerifHook = nil
 	if rec.bad != "" {
 		vfInfra("c16: " + rec.bad)
 	}
 	// direct checks (black box)
+	if windup != "" {
+		return rec.nev, nreqTotal, "token-leak", windup
+	}
 	if int(peak.Load()) > cfg.conc {
 		return rec.nev, nreqTotal, fmt.Sprintf("wrapped-peak conc=%d", cfg.conc), fmt.Sprintf("%d wrapped handlers ran at once with Concurrency=%d", peak.Load(), cfg.conc)
 	}
@@ -443,7 +470,7 @@ func TestVerifC16Timeout(t *testing.T) {
 		name := fmt.Sprintf("c16_trace_%d.ndjson", conc)
 		tw := vfNewTrace(t, name)
 		for i := 1; i <= ntr && nfail < 4; i++ {
-			cfg := c16Cfg{conc: conc, nconns: 1 + rng.Intn(conc), maxreq: 4,
+			cfg := c16Cfg{entry: []string{"serve", "serve", "sc"}[rng.Intn(3)], conc: conc, nconns: 1 + rng.Intn(conc), maxreq: 4,
 				timeout: []time.Duration{300 * time.Microsecond, time.Millisecond, 3 * time.Millisecond}[rng.Intn(3)]}
 			n, nr, key, detail := c16RunOne(t, rng, tw, i, cfg)
 			total += n
